@@ -680,7 +680,7 @@ def _adjacent(ck, p, byk):
             if st is None:
                 ck.undecided(rule, key + ":stride", f.span, "the index that walks a run of merged tokens was not identified")
             elif st[0] > 1:
-                ck.refuted(rule, key + ":stride", f.loc(st[1]), "within a run the index `%s` advances %d times between two examined tokens (once after the merge, once at the top of the loop): every other token is never looked at, and since the pass tests no adjacency the kept token's span is extended right over it - a word between two line breaks ends up inside the merged newline token (overlap)" % (_nm(names_of(f), st[2]), st[0]))
+                ck.refuted(rule, key + ":stride", f.loc(st[1]), "within a run the index `%s` advances by %d between two examined tokens (e.g. once after the merge and once more at the top of the loop): every other token is never looked at, and since the pass tests no adjacency the kept token's span is extended right over it - a word between two line breaks ends up inside the merged newline token (overlap)" % (_nm(names_of(f), st[2]), st[0]))
             else:
                 ck.proved(rule, key + ":stride", f.span, "the run index advances exactly once per examined token")
             continue
@@ -716,10 +716,10 @@ def _stride(f, pv, exts):
                 pl = place_of(sx["rv"]["op"])
                 if len(pl) == 2 and isinstance(pl[1], list) and pl[1][0] == "f":
                     ds = [x for (b2, si, k, x) in pv.defs.get(pl[0], []) if k == "assign"]
-                    if len(ds) == 1 and ds[0]["rv"]["k"] == "bin" and ds[0]["rv"]["op"] in ("AddWithOverflow", "Add") and place_of(ds[0]["rv"]["a"]) == [il] and const_int(ds[0]["rv"]["b"]) == 1:
-                        incs.setdefault(bi, []).append(sx["ln"])
-            elif sx["k"] == "assign" and sx["lhs"] == [il] and sx["rv"]["k"] == "bin" and sx["rv"]["op"] == "Add" and place_of(sx["rv"]["a"]) == [il] and const_int(sx["rv"]["b"]) == 1:
-                incs.setdefault(bi, []).append(sx["ln"])
+                    if len(ds) == 1 and ds[0]["rv"]["k"] == "bin" and ds[0]["rv"]["op"] in ("AddWithOverflow", "Add") and place_of(ds[0]["rv"]["a"]) == [il] and (const_int(ds[0]["rv"]["b"]) or 0) >= 1:
+                        incs.setdefault(bi, []).extend([sx["ln"]] * const_int(ds[0]["rv"]["b"]))
+            elif sx["k"] == "assign" and sx["lhs"] == [il] and sx["rv"]["k"] == "bin" and sx["rv"]["op"] == "Add" and place_of(sx["rv"]["a"]) == [il] and (const_int(sx["rv"]["b"]) or 0) >= 1:
+                incs.setdefault(bi, []).extend([sx["ln"]] * const_int(sx["rv"]["b"]))
     if not incs:
         return None
     cfg = Cfg(f)
